@@ -101,6 +101,22 @@ func checkC07(g *gspec.Grammar, text string, mustReject, mustAccept bool) (kind,
 	if mustAccept && rejectedLR {
 		return "lr_false_reject", "no rule can reach itself at its own start offset, but the build failed with the left-recursion error", rejectedLR, err
 	}
+	if (mustReject || mustAccept) && stage != "parse" {
+		// the analysis runs on the optimized grammar when -optimize-grammar is given: the verdict
+		// must be the same (every rule protected, so that none is dropped)
+		var all []string
+		for _, r := range g.Rules {
+			all = append(all, r.Name)
+		}
+		_, ostage, oerr := generate([]byte(text), genFlags{OptimizeGrammar: true, AltEntries: all})
+		orej := oerr != nil && (errors.Is(oerr, builder.ErrHaveLeftRecursion) || errors.Is(oerr, builder.ErrNoLeader))
+		if ostage == "panic" {
+			return "panic", fmt.Sprint(oerr), rejectedLR, oerr
+		}
+		if orej != rejectedLR {
+			return "lr_verdict_changes_with_optimize_grammar", fmt.Sprintf("left-recursion error without -optimize-grammar: %v, with it: %v (stage %s, err %v)", rejectedLR, orej, ostage, oerr), rejectedLR, err
+		}
+	}
 	return "", "", rejectedLR, err
 }
 
